@@ -1,7 +1,7 @@
 (* C14 — titrate_only restricts titration exactly to the listed residues.  Statements only; model/Titrate.v is tied to lib.py,
    conformation_container.py and group.py by the correspondences of tools/props/c14.py. *)
 From Coq Require Import String Ascii List Bool ZArith.
-From V Require Import PyString Titrate TitrateProofs.
+From V Require Import PyString Titrate TitrateProofs Inventory_gen.
 Import ListNotations.
 Open Scope string_scope.
 
@@ -35,6 +35,13 @@ Proof. exact parse_documented_syntax. Qed.
 Theorem C14_list_is_comma_separated : forall items keys, items <> [] -> Forall (fun s => has_char "," s = false) items ->
   Forall2 (fun s k => parse_res_string s = Ok k) items keys -> parse_res_list (join "," items) = Ok keys.
 Proof. exact parse_list_joined. Qed.
+(* the model's init_group is the ONLY place of the current source where the option touches a group: every assignment to titratable /
+   exclude_cys_from_results (inventory re-extracted from propka/*.py on this run) is a modelled one, and the two writes of init_group are present *)
+Theorem C14_flag_writes_are_the_modelled_operations :
+  forallb row_ok Inventory_gen.flag_writes = true
+  /\ has_row Inventory_gen.flag_writes "ConformationContainer.init_group" "titratable" "False" = true
+  /\ has_row Inventory_gen.flag_writes "ConformationContainer.init_group" "exclude_cys_from_results" "True" = true.
+Proof. vm_compute. repeat split. Qed.
 (* non-vacuity *)
 Example C14_example : parse_res_list "E:17,E:18A, :5" = Ok [("E", 17%Z, " "); ("E", 18%Z, "A"); (" ", 5%Z, " ")].
 Proof. vm_compute. reflexivity. Qed.
